@@ -290,6 +290,7 @@ public:
         }
         const bool u = a.maybe_nan || b.maybe_nan ||
             std::isinf(a.lower()) || std::isinf(a.upper()) ||
+            std::isinf(b.lower()) || std::isinf(b.upper()) ||
             (b.upper() >= 0.0f && b.lower() <= 0.0f);
         return Interval(out, u);
     }
